@@ -457,6 +457,8 @@ fn alphabet() -> Vec<S> {
     S::Nil, S::Add, S::Dup, S::DropN(2), S::SetPropByName(2),
     S::Label(l0), S::Label(l1),
     S::SetBox(2), S::SetCapture(2), S::SetModSym(2), S::GetPropByName(2), S::Call(2), S::GetSuper(2),
+    // wide operands that collide with the small ones when narrowed to a byte (1 + 256)
+    S::SetModSym(257), S::GetModSym(257), S::GetPropByName(257), S::GetSuper(257),
   ]
 }
 
